@@ -46,6 +46,7 @@ type vfConfig struct {
 	CodeRetries int
 	Restore     string // path of snapshot to restore before opening
 	UploadDir   string
+	BasicNoTags bool // basic authenticator configured with add_to_tags=false
 }
 
 type vfEnv struct {
@@ -205,8 +206,12 @@ func vfBoot(cfg vfConfig) *vfEnv {
 	if codeRetries == 0 {
 		codeRetries = 3
 	}
+	basicCfg := `{"add_to_tags":true,"min_login_length":4,"min_password_length":6}`
+	if cfg.BasicNoTags {
+		basicCfg = `{"add_to_tags":false,"min_login_length":4,"min_password_length":6}`
+	}
 	authCfg := map[string]json.RawMessage{
-		"basic": json.RawMessage(`{"add_to_tags":true,"min_login_length":4,"min_password_length":6}`),
+		"basic": json.RawMessage(basicCfg),
 		"token": json.RawMessage(fmt.Sprintf(`{"expire_in":%d,"serial_num":1,"key":%q}`, tokenExpire, vfTokenKey)),
 		"code":  json.RawMessage(fmt.Sprintf(`{"expire_in":900,"max_retries":%d,"code_length":6}`, codeRetries)),
 		"anon":  json.RawMessage(`{}`),
